@@ -3,7 +3,7 @@ from functools import partial
 
 from . import engine
 from .rules import (tables, errflow, stop, scope, fold, hashorder, eqfield, cast, lock, witness, orpat, guard, parsepure,
-                    kernel, evalorder, layer, export, panic, misc, pairflowrule, variant, folddrop, queryguard, iterops, round3, forshape, typeprint, variance, round4, round6)
+                    kernel, evalorder, layer, export, panic, misc, pairflowrule, variant, folddrop, queryguard, iterops, round3, forshape, typeprint, variance, round4, round6, round8)
 
 TRUST = ["rustc: type checking, MIR construction, Instance resolution, auto traits",
          "pest / pest_meta: PEG semantics, silent/atomic rule semantics, PrattParser precedence climbing",
@@ -43,8 +43,8 @@ prop("C01",
      "guard conditions are taken as written (a weakened but present condition is not detected)")
 
 prop("C02",
-     [partial(panic.run, name="R-PANIC"), errflow.run, stop.run, scope.run, orpat.run, lock.run, guard.run_execerror, variant.run, guard.run_mustcall, misc.run_looptype, layer.run, round3.run_assigntyping, round6.run_unarycall, round6.run_whobinds],
-     "R-UNARYCALL / R-WHOBINDS: a callee's body never runs in the caller's scope, names are bound only by declaring constructs. Also R-ASSIGNTYPING (a compound assignment admitting operands its operator does not type ends in a failed downcast). Decides: the complete inventory of panic-capable sites (383 today) is matched per function and signature to a reviewed "
+     [partial(panic.run, name="R-PANIC"), errflow.run, stop.run, scope.run, orpat.run, lock.run, guard.run_execerror, variant.run, guard.run_mustcall, misc.run_looptype, layer.run, round3.run_assigntyping, round6.run_unarycall, round6.run_whobinds, cast.run],
+     "R-CAST (an int converted to a length / index without a sign test in front of it: a negative constant becomes a huge allocation and a capacity panic). R-UNARYCALL / R-WHOBINDS: a callee's body never runs in the caller's scope, names are bound only by declaring constructs. Also R-ASSIGNTYPING (a compound assignment admitting operands its operator does not type ends in a failed downcast). Decides: the complete inventory of panic-capable sites (383 today) is matched per function and signature to a reviewed "
      "justification naming the check that discharges it (R-PANIC); no error or control signal is dropped (R-ERRFLOW); ExecStop is "
      "raised and caught only where the control-flow table says, with the documented routing (R-STOP); no callee declares into the "
      "caller's scope (R-SCOPE); no universal check is written as an overlapping or-pattern (R-ORPAT); nothing can panic while a "
@@ -55,8 +55,8 @@ prop("C02",
      "a frozen table turns every NEW panic-capable site into an alarm by design")
 
 prop("C03",
-     [pairflowrule.run, tables.run_dispatch, tables.run_precedence, partial(panic.run, name="R-PANIC"), guard.run_mustcall, queryguard.run, fold.run, errflow.run, parsepure.run, variant.run],
-     "Decides: every alternative the grammar can hand to a pair-walking function has an arm there (R-TABLES-D: primary, line/stm/"
+     [pairflowrule.run, tables.run_dispatch, tables.run_precedence, partial(panic.run, name="R-PANIC"), guard.run_mustcall, queryguard.run, fold.run, errflow.run, parsepure.run, variant.run, round3.run_childkeep],
+     "R-CHILDKEEP (a statement or declaration filtered out of a module / block while it is created is still referred to by what stays: the folding pass then looks up a name that was never declared). Decides: every alternative the grammar can hand to a pair-walking function has an arm there (R-TABLES-D: primary, line/stm/"
      "body, type, match_arm, int, var_from_str) and every operator rule is registered in the Pratt parser (R-TABLES); every "
      "panic-capable site on the parse path is a reviewed row (R-PANIC); Type queries are guarded by their admissibility test "
      "(R-MUSTCALL) and treat union members alike (R-FOLD); folding failures are propagated as errors, never unwrapped (R-ERRFLOW); "
@@ -180,8 +180,8 @@ prop("C14",
      "docs/operators.md is the documented table; four operators it omits are placed as the property statement says")
 
 prop("C15",
-     [typeprint.run, round4.run_structprint, round6.run_noabsorb, round6.run_whounion],
-     "R-WHOUNION: only Type::concat builds a union value, so no union that the parser cannot produce (holding any / ! / one member / a nested union) is ever printed. R-NOABSORB: reading a union back never absorbs members. R-STRUCTPRINT: the struct type printer never funnels fields through a keyed collection. Decides the structural half of the print / re-parse round trip of types: the printing code (Display of Type, FunctionType, "
+     [typeprint.run, round4.run_structprint, round6.run_noabsorb, round6.run_whounion, typeprint.run_typetext],
+     "R-TYPETEXT: outside the type printers no message template continues a printed type's syntax (`mut {T}`, `->{T}`, `{T}|`). R-WHOUNION: only Type::concat builds a union value, so no union that the parser cannot produce (holding any / ! / one member / a nested union) is ever printed. R-NOABSORB: reading a union back never absorbs members. R-STRUCTPRINT: the struct type printer never funnels fields through a keyed collection. Decides the structural half of the print / re-parse round trip of types: the printing code (Display of Type, FunctionType, "
      "MultiType, read from the MIR as templates + nested positions + the tests `is a union` / `is !` that pick an alternative) is "
      "instantiated with sample sub-types (plain, union, function, function returning a union, cell, array, tuple, (), any, !) in "
      "every nested position and every list length the grammar admits; each text is parsed with the repository's grammar and must "
@@ -202,24 +202,24 @@ prop("C16",
 
 prop("C17",
      [partial(witness.run, only=("W2CodeStatic", "W4ExecIsolated")), parsepure.run, misc.run_direction,
-      partial(guard.run, only_variants=("WrongNumberOfArguments", "WrongArgument")), guard.run_mustcall, round4.run_instrstate, lock.run_global, layer.run, round4.run_declvalues, round6.run_whobinds],
-     "R-WHOBINDS: executing a program adds no name of its own to the interpreter. R-DECLVALUES. Also: parsed code holds no interior-mutable state (R-INSTRSTATE), there is no global mutable state (R-GLOBAL), and the run-time scope discipline the REPL / batch equivalence relies on (R-LAYER). Decides: isolation by type (Code: 'static; Code::exec(&self) builds its own interpreter; parse takes &Interpreter); "
+      partial(guard.run, only_variants=("WrongNumberOfArguments", "WrongArgument")), guard.run_mustcall, round4.run_instrstate, lock.run_global, layer.run, round4.run_declvalues, round6.run_whobinds, round8.run_shellapi],
+     "R-SHELLAPI: the shell hands its interpreter only to with_stdlib / Code::parse / Code::exec_unscoped. R-WHOBINDS: executing a program adds no name of its own to the interpreter. R-DECLVALUES. Also: parsed code holds no interior-mutable state (R-INSTRSTATE), there is no global mutable state (R-GLOBAL), and the run-time scope discipline the REPL / batch equivalence relies on (R-LAYER). Decides: isolation by type (Code: 'static; Code::exec(&self) builds its own interpreter; parse takes &Interpreter); "
      "repeatability's structural half (no execution at parse time, cells only from Mut::exec); host calls re-check arity and each "
      "argument in the same direction as in-language calls and create_call goes through create_from_variables. Does NOT decide "
      "REPL = batch (a relation over histories).",
      "compile_fail witnesses, def-use on the operands of Type::matches, must-call", "")
 
 prop("C18",
-     [export.run, export.run_error_struct, partial(panic.run, scope=STDLIB_SCOPE, name="R-PANIC"), cast.run, variant.run, round4.run_stddelegate, export.run_ret],
-     "R-EXPORT-RET: the derived result type of an export is the TypeOf of the Rust type whose value is converted (io::Result keeps its error struct). R-STDDELEGATE: helpers named after a std method answer through that method on every path. Decides for all 77 exports: declared parameter names = names the generated closure imports, in order; TypeOf type of each "
+     [export.run, export.run_error_struct, partial(panic.run, scope=STDLIB_SCOPE, name="R-PANIC"), cast.run, variant.run, round4.run_stddelegate, export.run_ret, round8.run_dropwrite],
+     "R-DROPWRITE: a buffered writer is flushed before every success value (an error in Drop is lost: the call would report () for a failed write). R-EXPORT-RET: the derived result type of an export is the TypeOf of the Rust type whose value is converted (io::Result keeps its error struct). R-STDDELEGATE: helpers named after a std method answer through that method on every path. Decides for all 77 exports: declared parameter names = names the generated closure imports, in order; TypeOf type of each "
      "undecorated parameter = its TryInto target; TypeOf kind = kind tested by TryFrom<&Variable> (8 rows); error-struct keys "
      "agree; every panic-capable site under stdlib is a reviewed row (fs / io bodies have none); stdlib casts are listed with "
      "their documented semantics. Does NOT decide that helpers return what docs/stdlib.md says.",
      "MIR extraction of generated Function::new parameter lists vs generated closures", "")
 
 prop("C19",
-     [eqfield.run, round3.run_valuearm, round3.run_childkeep, round3.run_meetuse],
-     "Also: value arms / candidates are never dropped (R-CHILDKEEP), nor pruned by the non-exact meet (R-MEETUSE). Also R-VALUEARM: value arms of match consult nothing but Variable::eq. Decides: Array equality reads `elements` only; Variable equality compares Function / Mut by Arc::ptr_eq and the rest through "
+     [eqfield.run, round3.run_valuearm, round3.run_childkeep, round3.run_meetuse, round8.run_repeat],
+     "R-REPEAT: `[v; n]` is built by Array::new_repeat = repeat_n(v, n) collected, when run and when folded (so it equals the literal with n copies, `[]` for n = 0). Also: value arms / candidates are never dropped (R-CHILDKEEP), nor pruned by the non-exact meet (R-MEETUSE). Also R-VALUEARM: value arms of match consult nothing but Variable::eq. Decides: Array equality reads `elements` only; Variable equality compares Function / Mut by Arc::ptr_eq and the rest through "
      "the payload's PartialEq; `ne` is not overridden; ==, != and match value arms call exactly that PartialEq. Symmetry / "
      "reflexivity as laws are not decided.",
      "field-projection and callee inspection of the PartialEq impls", "")
